@@ -5,6 +5,7 @@ pub mod catalogue;
 pub mod engine;
 pub mod m_alloc;
 pub mod m_clone;
+pub mod m_cmp;
 pub mod m_dict;
 pub mod m_huff;
 pub mod m_index;
